@@ -386,6 +386,10 @@ func TestC17(t *testing.T) {
 				docs = append(docs, []byte("[Script Info]\nTitle: t\x1az\n\n[Events]\nFormat: Marked, Start, End, Style, Name, MarginL, MarginR, MarginV, Effect, Text\nDialogue: Marked=0,0:00:01.00,0:00:02.00,,,0,0,0,,first \x1a cue\nDialogue: Marked=0,0:00:03.00,0:00:04.00,,,0,0,0,,sec\x00ond\x0c\nDialogue: Marked=0,0:00:05.00,0:00:06.00,,,0,0,0,,third\n\x1a"))
 			}
 			if format == "ttml" {
+				// an entity XML does not know (rejected, the same way under every delivery)
+				docs = append(docs, []byte(`<tt xmlns="http://www.w3.org/ns/ttml"><body><div><p begin="00:00:01.000" end="00:00:02.000">a&nbsp;b &amp; c&nbsp;</p></div></body></tt>`))
+			}
+			if format == "ttml" {
 				// CR LF line ends inside text that is kept verbatim (title, copyright) and inside paragraphs
 				docs = append(docs, []byte("<?xml version=\"1.0\" encoding=\"UTF-8\"?>\r\n<tt xmlns=\"http://www.w3.org/ns/ttml\" xmlns:ttm=\"http://www.w3.org/ns/ttml#metadata\">\r\n  <head>\r\n    <metadata>\r\n      <ttm:title>A title\r\nover two lines</ttm:title>\r\n      <ttm:copyright>(c)\r\n\r\nsomeone</ttm:copyright>\r\n    </metadata>\r\n  </head>\r\n  <body>\r\n    <div>\r\n      <p begin=\"00:00:01.000\" end=\"00:00:02.000\">first\r\n        <br/>second</p>\r\n    </div>\r\n  </body>\r\n</tt>\r\n"))
 			}
@@ -457,6 +461,36 @@ func TestC17(t *testing.T) {
 			}
 		}
 		ev.Note("exhaustive-splits", fmt.Sprintf("every single split point (and every 7th one with data+EOF) of the documents of this shard: %d reads compared with the all-at-once result", total))
+	})
+
+	// Transport streams of a few packets only (the demultiplexer reads its first two packets on their own): every prefix
+	// of 1..8 packets of generated streams and two null packets, with and without the PID, from both kinds of reader,
+	// whole / whole with EOF / byte by byte / halves.
+	sub(t, "short-streams", func(t *testing.T) {
+		if cfgShard != 0 {
+			return
+		}
+		gen := docGen("ts")
+		streams := [][]byte{append(tsNullPacket(), tsNullPacket()...)}
+		for i := 0; i < tier(3, 12); i++ {
+			streams = append(streams, gen.Example(500+i))
+		}
+		for si, full := range streams {
+			for n := 1; n <= 8 && n*188 <= len(full); n++ {
+				doc := full[:n*188]
+				for _, pid := range []int{0, ttxPID} {
+					for _, seekable := range []bool{false, true} {
+						for k, ch := range [][]int{{len(doc)}, ones(len(doc)), {len(doc) / 2}, {188}, {376}, {193}} {
+							for _, withEOF := range []bool{true, false} {
+								c := c17Case{Format: "ts", Doc: doc, Seekable: seekable, Chunks: ch, WithEOF: withEOF, Opts: readOpts{PID: pid}}
+								ev.CaseH(true, mix(uint64(si), uint64(n), uint64(pid), b2u(seekable), uint64(k), b2u(withEOF)), "stream-of-a-few-packets", "format-ts")
+								verdict(t, "C17", "c17", c, checkC17)
+							}
+						}
+					}
+				}
+			}
+		}
 	})
 
 	// Large documents: splits at the scanner / block buffer boundaries +-1.
